@@ -167,6 +167,33 @@ def run(rep, tier):
             ["stm", ["return", ["expr", ["tuple", ["bin", "==", V("x"), V("y")], V("viamatch")]]]]]],
           ["stm", ["expr", ["call", V("f"), ["mut", None, I(5)], I(5)]]]], "ok (tup (b false) (b false))"),
     ]
+    F10 = ["c", ["f", 4607182418800017408]]      # 1.0
+    F20 = ["c", ["f", 4611686018427387904]]      # 2.0
+    cellv += [
+        # an int is never equal to a float, whatever the static types and whichever side is the literal
+        ([["fndecl", "f", [["x", "float"]], ["tup", "bool", "bool", "bool", "bool"], [
+            ["stm", ["return", ["expr", ["tuple", ["bin", "==", V("x"), I(1)], ["bin", "==", I(1), V("x")], ["bin", "!=", V("x"), I(1)], ["bin", "!=", I(1), V("x")]]]]]]],
+          ["stm", ["expr", ["call", V("f"), F10]]]], "ok (tup (b false) (b false) (b true) (b true))"),
+        ([["set", "x", ["expr", ["mut", None, F20]]], ["stm", ["expr", ["tuple", ["bin", "==", ["pre", "deref", V("x")], I(2)], ["bin", "!=", ["pre", "deref", V("x")], I(2)]]]]],
+         "ok (tup (b false) (b true))"),
+        ([["fndecl", "g", [], "float", [["stm", ["return", ["expr", F10]]]]], ["stm", ["expr", ["tuple", ["bin", "==", ["call", V("g")], I(1)], ["bin", "==", I(1), ["call", V("g")]]]]]],
+         "ok (tup (b false) (b false))"),
+        ([["fndecl", "f", [["x", "float"]], "bool", [["stm", ["return", ["expr", ["bin", "==", V("x"), I(9007199254740993)]]]]]],
+          ["stm", ["expr", ["call", V("f"), ["c", ["f", 4845873199050653696]]]]]], "ok (b false)"),
+        ([["fndecl", "f", [["x", ["multi", "int", "float"]], ["y", ["multi", "int", "string"]]], ["tup", "bool", "bool"], [
+            ["stm", ["return", ["expr", ["tuple", ["bin", "==", V("x"), V("y")], ["bin", "!=", V("x"), V("y")]]]]]]],
+          ["stm", ["expr", ["call", V("f"), I(1), I(1)]]]], "ok (tup (b true) (b false))"),
+        # a tuple value arm matches tuples of its own length only
+        ([["fndecl", "f", [["t", "any"], ["a", "int"]], "int", [
+            ["stm", ["return", ["match", V("t"), ["aval", [["tuple", V("a"), I(2)]], ["block", ["stm", ["expr", I(1)]]]], ["aother", ["block", ["stm", ["expr", I(0)]]]]]]]]],
+          ["stm", ["expr", ["tuple", ["call", V("f"), ["tuple", I(1), I(2)], I(1)], ["call", V("f"), ["tuple", I(1), I(2), I(3)], I(1)],
+                            ["call", V("f"), ["tuple", I(1), I(3)], I(1)], ["call", V("f"), ["array", I(1), I(2)], I(1)]]]]],
+         "ok (tup (i 1) (i 0) (i 0) (i 0))"),
+        ([["fndecl", "f", [["t", ["multi", ["tup", "int", "int"], ["tup", "int", "int", "int"]]], ["a", "int"]], "int", [
+            ["stm", ["return", ["match", V("t"), ["aval", [["tuple", V("a"), I(2), I(3)]], ["block", ["stm", ["expr", I(1)]]]], ["aother", ["block", ["stm", ["expr", I(0)]]]]]]]]],
+          ["stm", ["expr", ["tuple", ["call", V("f"), ["tuple", I(1), I(2)], I(1)], ["call", V("f"), ["tuple", I(1), I(2), I(3)], I(1)]]]]],
+         "ok (tup (i 0) (i 1))"),
+    ]
     cell_expect = {}
     for p, want in cellv:
         cell_expect[len(progs)] = want
